@@ -613,6 +613,15 @@ impl Ctx {
     /// Enumerate the whole family on `threads` OS threads (dynamic chunking); then, when the trace
     /// pass is enabled, re-run an evenly spread subset with the log level at Trace.
     pub fn run_family(&self, fam: Family) {
+        // auxiliary runs (Miri): DLTMC_CASE_CAP=n thins every family to at most n evenly spread cases
+        let fam = match std::env::var("DLTMC_CASE_CAP").ok().and_then(|v| v.parse::<u64>().ok()) {
+            Some(cap) if cap > 0 && fam.size > cap => {
+                let stride = fam.size / cap;
+                let Family { name, size: _, about, run, chunk: _, distinct_by_construction: _, trace_budget } = fam;
+                Family { name, size: cap, about: format!("(capped to {} cases, every {}th) {}", cap, stride, about), run: Box::new(move |j, loc| run(j * stride, loc)), chunk: 1, distinct_by_construction: true, trace_budget: trace_budget.map(|b| b.min(cap / 4)) }
+            }
+            _ => fam,
+        };
         let budget = fam.trace_budget.unwrap_or_else(|| self.trace_default.load(Ordering::Relaxed));
         if let Some((name, lo, hi)) = &self.range {
             // crash triage: only the named cases, in this thread, no bookkeeping
